@@ -236,11 +236,44 @@ def run_unit(ctx, name, **kw):
                 ctx.sample({"kind": "enc", "n": n, "all_s": "1..%d" % (n - 1)})
         ctx.exhausted("all n in [%d,%d] x all s in [1,n-1]" % (kw["lo"], kw["hi"]))
     elif name == "curve-orders":
+        M61 = (1 << 61) - 1
         for cname in gen.NAMED:
             n = gen.named(cname).n
             for s in structured_s(n):
                 for r in (1, n - 1):
                     check_enc(ctx, n, r, s)
+            # orders that are only special relative to the one just used: same hash() (congruent mod 2^61-1),
+            # same bit length, neighbours
+            for n2 in (n + 2 * M61, n + M61 * 1024, n - 2 * M61, n + 2, n - 2):
+                for s in structured_s(n2) + [n // 2, n // 2 + 1, n // 2 + M61, n2 // 2 - M61 + 1]:
+                    if 1 <= s < n2:
+                        check_enc(ctx, n2, 1, s)
+        # key history: the same key signs the same digest with a plain and then with a canonical encoder
+        for cname in ("SECP112r1", "NIST192p", "t251a"):
+            d = gen.dom(cname)
+            sk = SigningKey.from_secret_exponent(d.n // 7 + 3, curve=d.lib, hashfunc=hashlib.sha256)
+            found = 0
+            for i in range(60):
+                dig = hashlib.sha256(b"hist-%d" % i).digest()[: (d.n.bit_length() + 7) // 8]
+                ctx.ev()
+                plain = sk.sign_digest_deterministic(dig, sigencode=U.sigencode_string, allow_truncate=True)
+                r0, s0 = U.sigdecode_string(plain, d.n)
+                for canon, dec in ((U.sigencode_string_canonize, U.sigdecode_string),
+                                   (U.sigencode_der_canonize, U.sigdecode_der)):
+                    try:
+                        r1, s1 = dec(sk.sign_digest_deterministic(dig, sigencode=canon, allow_truncate=True), d.n)
+                    except Exception as e:
+                        ctx.fail("key-history/canonical-after-plain/exception", {"kind": "enc", "n": d.n, "r": r0, "s": s0},
+                                 "same key, same digest: canonical call after a plain one: %r" % (e,))
+                        continue
+                    if (r1, s1) != (r0, min(s0, d.n - s0)):
+                        ctx.fail("key-history/canonical-after-plain", {"kind": "enc", "n": d.n, "r": r0, "s": s0},
+                                 "same key, same digest: plain gave s=%d, canonical call returned s=%d" % (s0, s1))
+                if 2 * s0 > d.n:
+                    found += 1
+                    ctx.nontrivial(("key-history", cname, i))
+                if found >= 6:
+                    break
             ctx.sample({"kind": "enc", "curve": cname, "n": n, "s": n // 2 + 1})
     elif name == "random-orders":
         def body(c, case):
